@@ -380,6 +380,114 @@ theorem trans_C07_pick_none_when_all_held_v2 (r : T_v2_sharedResource) (k : Nat)
   have := freeIdx_length r.partitions
   rw [trans_C07_C09_pick_v2 r k hl, if_pos (by omega)]
 
+/-- the partitions an instance counts, as the M-Lease machine keeps them: the indexes of the non-nil slots -/
+def heldIdx (l : List Bool) : List Nat := (List.range l.length).filter (fun i => l.getD i false)
+
+theorem mem_heldIdx (l : List Bool) (i : Nat) : i ∈ heldIdx l ↔ i < l.length ∧ l.getD i false = true := by
+  simp [heldIdx, List.mem_filter]
+
+theorem mem_freeIdx (l : List Bool) (i : Nat) : i ∈ freeIdx l l.length ↔ i < l.length ∧ l.getD i false = false := by
+  simp [freeIdx, List.mem_filter]
+
+theorem heldIdx_length (l : List Bool) : (heldIdx l).length = heldCount l := by
+  have key : ∀ n, n ≤ l.length → ((List.range n).filter (fun i => l.getD i false)).length = (l.take n).count true := by
+    intro n
+    induction n with
+    | zero => intro _; simp
+    | succ k ih =>
+      intro hn
+      have hk : k < l.length := by omega
+      have htake : l.take (k + 1) = l.take k ++ [l[k]] := by
+        rw [List.take_add_one]; simp [List.getElem?_eq_getElem hk]
+      have := ih (by omega)
+      have hg : l[k]?.getD false = l[k] := by simp [List.getElem?_eq_getElem hk]
+      simp only [List.range_succ, List.filter_append, List.length_append, htake, List.count_append,
+        List.getD_eq_getElem?_getD] at this ⊢
+      cases hv : l[k] <;> simp [hg, hv] <;> omega
+  have := key l.length (Nat.le_refl _)
+  rw [List.take_length] at this
+  exact this
+
+/-- the guard of the M-Lease machine's `issue i p` label (Model/Lease.lean), on the abstraction of the partition list -/
+def issueGuard (held : List Nat) (target parts p : Nat) : Prop := held.length < target ∧ p < parts ∧ p ∉ held
+
+/-- the loop body `count, index, err := pick(); if err == nil && count < target { lease(index) }` asks the store for
+`index` exactly when the machine's `issue` label is enabled for it; and when the code asks for nothing, `issue` is
+enabled for no partition at all -/
+theorem trans_C04_C07_C09_issue_guard_v2 (r : T_v2_sharedResource) (k target : Nat) (hl : r.partitions.length < 4294967296)
+    (hk : k < (freeIdx r.partitions r.partitions.length).length ∨ (freeIdx r.partitions r.partitions.length).length = 0) :
+    (((v2_sr_pick r k).2.2 = "" ∧ (v2_sr_pick r k).1 < (target : Int)) →
+        issueGuard (heldIdx r.partitions) target r.partitions.length (v2_sr_pick r k).2.1.toNat) ∧
+    (¬ ((v2_sr_pick r k).2.2 = "" ∧ (v2_sr_pick r k).1 < (target : Int)) →
+        ∀ p, ¬ issueGuard (heldIdx r.partitions) target r.partitions.length p) := by
+  have hlen := freeIdx_length r.partitions
+  rw [trans_C07_C09_pick_v2 r k hl]
+  by_cases h0 : (freeIdx r.partitions r.partitions.length).length < 1
+  · rw [if_pos h0]
+    refine ⟨fun h => by simp at h, fun _ p hp => ?_⟩
+    obtain ⟨_, hp2, hp3⟩ := hp
+    have : p ∈ freeIdx r.partitions r.partitions.length := by
+      rw [mem_freeIdx]; refine ⟨hp2, ?_⟩
+      cases hv : r.partitions.getD p false
+      · rfl
+      · exact absurd ((mem_heldIdx _ _).2 ⟨hp2, hv⟩) hp3
+    have := List.length_pos_of_mem this
+    omega
+  · rw [if_neg h0]
+    have hk' : k < (freeIdx r.partitions r.partitions.length).length := by omega
+    obtain ⟨hf1, hf2⟩ := freeIdx_getD_free r.partitions k hk'
+    refine ⟨fun h => ?_, fun h p hp => ?_⟩
+    · simp only [Int.toNat_natCast] at h ⊢
+      refine ⟨by rw [heldIdx_length]; omega, hf1, fun hm => ?_⟩
+      have := ((mem_heldIdx _ _).1 hm).2
+      rw [List.getD_eq_getElem?_getD, List.getElem?_eq_getElem hf1] at this hf2
+      simp_all
+    · apply h
+      refine ⟨rfl, ?_⟩
+      have := hp.1; rw [heldIdx_length] at this
+      simp only; omega
+
+theorem trans_C04_C07_C09_issue_guard_v1 (r : T_v1_AzureSharedResource) (k target : Nat) (hl : r.partitions.length < 4294967296)
+    (hk : k < (freeIdx r.partitions r.partitions.length).length ∨ (freeIdx r.partitions r.partitions.length).length = 0) :
+    (((v1_sr_pick r k).2.2 = "" ∧ (v1_sr_pick r k).1 < (target : Int)) →
+        issueGuard (heldIdx r.partitions) target r.partitions.length (v1_sr_pick r k).2.1.toNat) ∧
+    (¬ ((v1_sr_pick r k).2.2 = "" ∧ (v1_sr_pick r k).1 < (target : Int)) →
+        ∀ p, ¬ issueGuard (heldIdx r.partitions) target r.partitions.length p) := by
+  have hlen := freeIdx_length r.partitions
+  rw [trans_C07_C09_pick_v1 r k hl]
+  by_cases h0 : (freeIdx r.partitions r.partitions.length).length < 1
+  · rw [if_pos h0]
+    refine ⟨fun h => by simp at h, fun _ p hp => ?_⟩
+    obtain ⟨_, hp2, hp3⟩ := hp
+    have : p ∈ freeIdx r.partitions r.partitions.length := by
+      rw [mem_freeIdx]; refine ⟨hp2, ?_⟩
+      cases hv : r.partitions.getD p false
+      · rfl
+      · exact absurd ((mem_heldIdx _ _).2 ⟨hp2, hv⟩) hp3
+    have := List.length_pos_of_mem this
+    omega
+  · rw [if_neg h0]
+    have hk' : k < (freeIdx r.partitions r.partitions.length).length := by omega
+    obtain ⟨hf1, hf2⟩ := freeIdx_getD_free r.partitions k hk'
+    refine ⟨fun h => ?_, fun h p hp => ?_⟩
+    · simp only [Int.toNat_natCast] at h ⊢
+      refine ⟨by rw [heldIdx_length]; omega, hf1, fun hm => ?_⟩
+      have := ((mem_heldIdx _ _).1 hm).2
+      rw [List.getD_eq_getElem?_getD, List.getElem?_eq_getElem hf1] at this hf2
+      simp_all
+    · apply h
+      refine ⟨rfl, ?_⟩
+      have := hp.1; rw [heldIdx_length] at this
+      simp only; omega
+
+/-- ... and `issueGuard` IS the enabling condition of `issue` in the machine the C04 / C07 / C09 theorems are about -/
+theorem trans_C04_C07_C09_issue_enabled_iff (n : Nat) (s : LSt) (i p : Nat)
+    (h1 : (s.inst i).loopOn = true) (h2 : (s.inst i).alive = true) (h3 : (s.inst i).call = none) :
+    (lstepCore n s (.issue i p)).isSome ↔ issueGuard (s.inst i).held (s.inst i).target (s.inst i).parts p := by
+  simp only [lstepCore, issueGuard, h1, h2, h3]
+  by_cases a : (s.inst i).held.length < (s.inst i).target <;> by_cases b : p < (s.inst i).parts <;>
+    by_cases c : p ∈ (s.inst i).held <;> simp [a, b, c]
+
 /-! ### Batcher: the admission checks at the head of `Enqueue`, and `applyDefaults`
 
 `v?_enqueueAdmit` is the translation of everything `Enqueue` does BEFORE its first `r.incTarget(...)`; the calls
@@ -485,5 +593,7 @@ example : v2_applyDefaults ⟨false, 0, -5, 7, 0, 1⟩ = ⟨false, 100000000, 10
 example : v2_sr_pick ⟨1, 4, 0, 0, 0, [true, false, true, false]⟩ 1 = (2, 3, "") ∧
           v2_sr_pick ⟨1, 4, 0, 0, 0, [true, false, true, false]⟩ 0 = (2, 1, "") ∧
           v1_sr_pick ⟨1, 2, 0, 0, 0, [true, true]⟩ 0 = (2, 0, "error") := by decide
+example : issueGuard (heldIdx [true, false, true, false]) 3 4 (v2_sr_pick ⟨1, 4, 0, 0, 0, [true, false, true, false]⟩ 1).2.1.toNat := by
+  unfold issueGuard; decide
 
 end GoBatcher.ExpectTrans
